@@ -972,7 +972,6 @@ for _i in [1, 2, 3, 4, 5, 6, 7, 8, 10, 11, 12, 13, 14, 15, 16, 17, 18, 19, 20]:
                          what="a new unrelated module sempler/metrics.py (dataclass, walrus, match, keyword-only args)"))
 
 # ------------------------------------------------------------------------------- every rule fires at least once: variants for rules no other entry exercised (group 1)
-V("d-c18-bin-add", "C18", "fire", UT, "    supergraph = A.copy()\n    i = 0\n", "    supergraph = np.abs(A.copy())\n    i = 0\n", rule="BIN.add", what="working graph is not a plain copy of the pattern", accept_inconclusive=True)
 V("d-c18-cand-two-stores", "C18", "fire", UT, "        next_supergraph[edges[i]] = 1\n", "        next_supergraph[edges[i]] = 1\n        next_supergraph[edges[i][::-1]] = 0\n", rule="CAND.store", what="the candidate is edited twice")
 V("d-c15-cc-matrix", "C15", "fire", UT, "            to_visit = (to_visit | neighbors(j, A)) - visited\n", "            to_visit = (to_visit | neighbors(j, G.T)) - visited\n", rule="CC.matrix", what="neighbours taken in another matrix", accept_inconclusive=True)
 V("d-c15-cc-start", "C15", "fire", UT, "    visited = set()\n    to_visit = {i}\n", "    visited = set()\n    to_visit = neighbors(i, A)\n", rule="CC.start", what="search starts from the neighbours: an isolated node has an empty component")
@@ -1040,3 +1039,29 @@ V("d-c15-paths-return-first", "C15", "fire", UT, "            stack = [(next_nod
 V("d-c11-perm-switch", "C11", "fire", GE, "    print(\"avg degree = %0.2f\" % (np.sum(A) * 2 / len(A))) if debug else None\n    if return_ordering:\n", "    print(\"avg degree = %0.2f\" % (np.sum(A) * 2 / len(A))) if debug else None\n    if return_ordering and p > 2:\n", rule="PERM.switch", what="ordering only returned for p > 2")
 V("d-c10-pipeline", "C10", "fire", UT, "    G = pdag_to_dag(P)\n", "    G = only_directed(P)\n", rule="PIPELINE", what="directed part used instead of an extension", accept_inconclusive=True)
 V("d-c13-default-seed", "C13", "fire", ND, "    def sample(self, n, random_state=None):\n", "    def sample(self, n, random_state=0):\n", rule="R5.default", what="unseeded sampling defaults to seed 0: consecutive calls repeat")
+
+# ------------------------------------------------------------------------------- every rule fires at least once (group 3)
+V("d-c01-range-p", "C01", "fire", LG, "        self.p = len(W)\n", "        self.p = W.size\n", rule="RANGE.p", what="p set to the number of entries", accept_inconclusive=True)
+V("d-c15-reach-other-matrix", "C15", "fire", UT, "    anc = pa(i, A)\n    for j in pa(i, A):\n        anc |= ancestors(j, A)\n    return anc\n", "    anc = pa(i, A)\n    for j in pa(i, A):\n        anc |= ancestors(j, A.T)\n    return anc\n", rule="REACH", what="recursive step walks the transposed graph")
+V("d-c18-add-no-assert", "C18", "fire", UT, "    assert (supergraph.sum() - A.sum() == no_edges)\n    return supergraph\n", "    return supergraph\n", rule="RESULT.add", what="a graph with fewer added edges than requested is returned silently")
+V("d-c12-result-other-list", "C12", "fire", GE, "            interventions.append(intervention)\n    return interventions\n", "            interventions.append(intervention)\n    return interventions[:K - 1] if K > 1 else interventions\n", rule="RESULT.list", what="last intervention dropped", accept_inconclusive=True)
+V("d-c06-return-other-vector", "C06", "fire", ND, "        return (coefs, intercept)\n", "        return (coefs * 2, intercept)\n", rule="RETURN.coefs", what="first result is a rescaled vector")
+V("d-c15-sep-paths-in-transpose", "C15", "fire", UT, "            for path in semi_directed_paths(a, b, G):\n", "            for path in semi_directed_paths(b, a, G):\n", rule="SEP.paths", what="paths searched from B to A")
+V("d-c19-shape-array", "C19", "fire", SE, "            sample = np.zeros((n[k], self.p), dtype=float)\n", "            sample = np.zeros((n[0], self.p), dtype=float)\n", rule="SHAPE.array", what="every environment gets the first environment's size")
+V("d-c19-shape-collect", "C19", "fire", SE, "            sampled_data.append(sample)\n", "            sampled_data.append(sample[:0])\n", rule="SHAPE.collect", what="an empty slice is collected", accept_inconclusive=True)
+V("d-c19-shape-ctor", "C19", "fire", SE, "        self.e = len(self._data)\n", "        self.e = len(self._data[0])\n", rule="SHAPE.ctor", what="number of environments taken from the first sample's length")
+V("d-c19-shape-envs", "C19", "fire", SE, "        for k in range(self.e):\n            sample = np.zeros(", "        for k in range(self.e - 1):\n            sample = np.zeros(", rule="SHAPE.envs", what="last environment skipped")
+V("d-c02-shape-p", "C02", "fire", AN, "        self.p = len(A)\n", "        self.p = len(assignments) - 1\n", rule="SHAPE.p", what="p not taken from the matrix")
+V("d-c19-slots-table", "C19", "fire", SE, "        self._random_forests = np.empty((self.p, self.e), dtype=object)\n", "        self._random_forests = np.empty((self.e, self.p), dtype=object)\n", rule="SLOTS.table", what="table transposed")
+V("d-c08-step-last-two-stores", "C08", "fire", UT, "            labelled[unknown, y] = COM if z_exists else REV\n", "            labelled[unknown, y] = COM if z_exists else REV\n            labelled[x, y] = REV\n", rule="STEP.last", what="selected edge relabelled again")
+V("d-c08-step-order-store", "C08", "fire", UT, "        ordered[x, y] = i\n", "        ordered[x] = i\n", rule="STEP.order", what="whole row labelled", accept_inconclusive=True)
+V("d-c04-switch", "C04", "fire", LG, "        if not population:\n            return distribution.sample(n, random_state=random_state)\n", "        if not population and n > 0:\n            return distribution.sample(n, random_state=random_state)\n", rule="SWITCH", what="n = 0 returns the distribution object instead of an empty sample")
+V("d-c17-tol-after-shuffle", "C17", "fire", UT, "    if abs(np.sum(ratios) - 1) > 1e-9:\n        raise ValueError(\"The elements in ratios must add up to 1.\")\n", "", rule="TOL",
+  more=[(UT, "    assert len(folds) == n_folds\n", "    if abs(np.sum(ratios) - 1) > 1e-9:\n        raise ValueError(\"The elements in ratios must add up to 1.\")\n    assert len(folds) == n_folds\n")], what="ratio check after the work is done")
+V("d-c03-topo-raises-type", "C03", "fire", UT, "    if A.sum() > 0:\n        raise ValueError(\"The given graph is not a DAG\")\n    else:\n        return ordering", "    if A.sum() > 0:\n        raise RuntimeError(\"The given graph is not a DAG\")\n    else:\n        return ordering", rule="TOPO.raises", what="cycles raise another exception type", accept_inconclusive=True)
+V("d-c03-topo-returns-const", "C03", "fire", UT, "    if A.sum() > 0:\n        raise ValueError(\"The given graph is not a DAG\")\n    else:\n        return ordering", "    if A.sum() > 0:\n        raise ValueError(\"The given graph is not a DAG\")\n    else:\n        return []", rule="TOPO.returns", what="a constant is returned")
+V("d-c16-vs-result-list", "C16", "fire", UT, "    return set(vstructs)\n", "    return set(vstructs[:1])\n", rule="VS.result", what="only the first v-structure is returned")
+V("d-c19-slots-sources", "C19", "fire", SE, "            if parents != set():\n", "            if len(parents) > 1:\n", rule="SLOTS.sources", what="nodes with a single parent are treated as sources")
+V("d-c18-bin-add", "C18", "fire", UT, "    supergraph = A.copy()\n    i = 0\n", "    supergraph = np.abs(A - 1).copy()\n    i = 0\n", rule="BIN.add", what="the working graph is not a copy of the pattern", accept_inconclusive=True)
+V("d-c08-index-init-zero", "C08", "fire", UT, "    G = only_directed(P)\n    indexes = list(range(len(P)))", "    G = np.zeros_like(P)\n    indexes = list(range(len(P)))", rule="INDEX.init", what="the extension starts from the empty graph: directed edges are lost")
+V("c08-silent-index-init-copy", "C08", "silent", UT, "    G = only_directed(P)\n    indexes = list(range(len(P)))", "    G = only_directed(P).copy()\n    indexes = list(range(len(P)))", what="explicit copy of the directed part")
